@@ -124,7 +124,7 @@ impl<T: ToSV> ToSV for &T {
 // ---- ghost world ----
 pub struct Call {
     pub callee: Address,
-    pub func: Seq<char>,
+    pub func: int,       // function name as its base-256 integer
     pub args: Seq<SV>,
     pub ret: SV,
     pub ok: bool,
@@ -172,6 +172,10 @@ impl World {
         self.ledger_seq == o.ledger_seq && self.timestamp == o.timestamp && self.max_entry_ttl == o.max_entry_ttl
             && self.min_temp_ttl == o.min_temp_ttl && self.network_id == o.network_id && self.this == o.this
     }
+    /// live-until of a freshly created temporary entry (the network minimum is at least one ledger)
+    pub open spec fn min_live(self) -> int {
+        self.ledger_seq as int + (if self.min_temp_ttl >= 1 { self.min_temp_ttl as int } else { 1 }) - 1
+    }
     pub open spec fn ledger_ok(self) -> bool {
         self.min_temp_ttl >= 1 && self.max_entry_ttl >= self.min_temp_ttl
     }
@@ -189,7 +193,7 @@ impl View for Env {
 pub open spec fn temp_set(w: World, k: SV, v: SV) -> World {
     World {
         temporary: w.temporary.insert(k, v),
-        temp_live: if w.temp_has(k) { w.temp_live } else { w.temp_live.insert(k, w.ledger_seq as int + w.min_temp_ttl as int - 1) },
+        temp_live: if w.temp_has(k) { w.temp_live } else { w.temp_live.insert(k, w.min_live()) },
         ..w
     }
 }
@@ -205,6 +209,72 @@ pub open spec fn temp_extend(w: World, k: SV, threshold: u32, extend_to: u32) ->
     } else { w }
 }
 
+
+// ---- typed-key layer over the three stores: reads and writes by a key of an encodable type ----
+pub open spec fn iget<K: ToSV>(w: World, k: K) -> Option<SV> { if w.instance.contains_key(k.sv()) { Some(w.instance[k.sv()]) } else { None } }
+pub open spec fn iset<K: ToSV>(w: World, k: K, v: SV) -> World { World { instance: w.instance.insert(k.sv(), v), ..w } }
+pub open spec fn idel<K: ToSV>(w: World, k: K) -> World { World { instance: w.instance.remove(k.sv()), ..w } }
+pub open spec fn pget<K: ToSV>(w: World, k: K) -> Option<SV> { if w.persistent.contains_key(k.sv()) { Some(w.persistent[k.sv()]) } else { None } }
+pub open spec fn pset<K: ToSV>(w: World, k: K, v: SV) -> World { World { persistent: w.persistent.insert(k.sv(), v), ..w } }
+pub open spec fn pdel<K: ToSV>(w: World, k: K) -> World { World { persistent: w.persistent.remove(k.sv()), ..w } }
+pub open spec fn tget<K: ToSV>(w: World, k: K) -> Option<SV> { if w.temp_has(k.sv()) { Some(w.temporary[k.sv()]) } else { None } }
+pub open spec fn tset<K: ToSV>(w: World, k: K, v: SV) -> World { temp_set(w, k.sv(), v) }
+pub open spec fn tdel<K: ToSV>(w: World, k: K) -> World { temp_remove(w, k.sv()) }
+pub open spec fn text<K: ToSV>(w: World, k: K, threshold: u32, extend_to: u32) -> World { temp_extend(w, k.sv(), threshold, extend_to) }
+/// live-until ledger of a temporary entry
+pub open spec fn tlive<K: ToSV>(w: World, k: K) -> int { w.temp_live[k.sv()] }
+/// typed read
+pub open spec fn dec<V: ToSV>(o: Option<SV>) -> Option<V> { match o { Some(v) => Some(V::unsv(v)), None => None } }
+
+pub proof fn lemma_sv_inj<T: ToSV>(a: T, b: T)
+    ensures a.sv() == b.sv() ==> a == b,
+{ a.lemma_rt(); b.lemma_rt(); }
+
+pub broadcast proof fn lemma_unsv_sv<V: ToSV>(x: V)
+    ensures #[trigger] V::unsv(x.sv()) == x,
+{ x.lemma_rt(); }
+
+pub broadcast proof fn lemma_iget_iset<K: ToSV>(w: World, k: K, v: SV, k2: K)
+    ensures #[trigger] iget(iset(w, k, v), k2) == (if k2 == k { Some(v) } else { iget(w, k2) }),
+{ k.lemma_rt(); k2.lemma_rt(); }
+pub broadcast proof fn lemma_iget_idel<K: ToSV>(w: World, k: K, k2: K)
+    ensures #[trigger] iget(idel(w, k), k2) == (if k2 == k { None } else { iget(w, k2) }),
+{ k.lemma_rt(); k2.lemma_rt(); }
+pub broadcast proof fn lemma_pget_pset<K: ToSV>(w: World, k: K, v: SV, k2: K)
+    ensures #[trigger] pget(pset(w, k, v), k2) == (if k2 == k { Some(v) } else { pget(w, k2) }),
+{ k.lemma_rt(); k2.lemma_rt(); }
+pub broadcast proof fn lemma_pget_pdel<K: ToSV>(w: World, k: K, k2: K)
+    ensures #[trigger] pget(pdel(w, k), k2) == (if k2 == k { None } else { pget(w, k2) }),
+{ k.lemma_rt(); k2.lemma_rt(); }
+pub broadcast proof fn lemma_tget_tset<K: ToSV>(w: World, k: K, v: SV, k2: K)
+    ensures #[trigger] tget(tset(w, k, v), k2) == (if k2 == k { Some(v) } else { tget(w, k2) }),
+        k2 != k ==> tlive(tset(w, k, v), k2) == tlive(w, k2),
+{ k.lemma_rt(); k2.lemma_rt(); }
+pub broadcast proof fn lemma_tget_tdel<K: ToSV>(w: World, k: K, k2: K)
+    ensures #[trigger] tget(tdel(w, k), k2) == (if k2 == k { None } else { tget(w, k2) }),
+{ k.lemma_rt(); k2.lemma_rt(); }
+pub broadcast proof fn lemma_tget_text<K: ToSV>(w: World, k: K, th: u32, to: u32, k2: K)
+    requires tget(w, k).is_some(),
+    ensures #[trigger] tget(text(w, k, th, to), k2) == tget(w, k2),
+        k2 != k ==> tlive(text(w, k, th, to), k2) == tlive(w, k2),
+{ k.lemma_rt(); k2.lemma_rt(); }
+pub broadcast group sdk_store {
+    lemma_unsv_sv, lemma_iget_iset, lemma_iget_idel, lemma_pget_pset, lemma_pget_pdel, lemma_tget_tset, lemma_tget_tdel, lemma_tget_text,
+}
+/// keys of different types: no interference when their encodings differ
+pub proof fn lemma_pget_pset_other<K1: ToSV, K2: ToSV>(w: World, k: K1, v: SV, k2: K2)
+    requires k.sv() != k2.sv()
+    ensures pget(pset(w, k, v), k2) == pget(w, k2), pget(pdel(w, k), k2) == pget(w, k2),
+{}
+pub proof fn lemma_iget_iset_other<K1: ToSV, K2: ToSV>(w: World, k: K1, v: SV, k2: K2)
+    requires k.sv() != k2.sv()
+    ensures iget(iset(w, k, v), k2) == iget(w, k2), iget(idel(w, k), k2) == iget(w, k2),
+{}
+/// tag of an encoded enum key (its variant name)
+pub open spec fn sv_tag(v: SV) -> int {
+    match v { SV::Vec(s) => if s.len() > 0 { match s[0] { SV::Sym(c) => c, _ => -1 } } else { -1 }, _ => -2 }
+}
+
 impl Env {
     // ---------------- instance ----------------
     #[verifier::external_body]
@@ -213,18 +283,21 @@ impl Env {
             r.is_some() <==> self@.instance.contains_key(key.sv()),
             r.is_some() ==> r.unwrap().sv() == self@.instance[key.sv()],
             r.is_some() ==> r.unwrap() == V::unsv(self@.instance[key.sv()]),
+            r == dec::<V>(iget(self@, *key)),
     { unimplemented!() }
     #[verifier::external_body]
     pub fn storage_instance_has<K: ToSV>(&self, key: &K) -> (r: bool)
-        ensures r == self@.instance.contains_key(key.sv()),
+        ensures r == self@.instance.contains_key(key.sv()), r == iget(self@, *key).is_some(),
     { unimplemented!() }
     #[verifier::external_body]
     pub fn storage_instance_set<K: ToSV, V: ToSV>(&mut self, key: &K, val: &V)
         ensures final(self)@ == (World { instance: old(self)@.instance.insert(key.sv(), val.sv()), ..old(self)@ }),
+            final(self)@ == iset(old(self)@, *key, val.sv()),
     { unimplemented!() }
     #[verifier::external_body]
     pub fn storage_instance_remove<K: ToSV>(&mut self, key: &K)
         ensures final(self)@ == (World { instance: old(self)@.instance.remove(key.sv()), ..old(self)@ }),
+            final(self)@ == idel(old(self)@, *key),
     { unimplemented!() }
     /// instance / persistent TTL extension never changes values (archival only makes calls fail)
     #[verifier::external_body]
@@ -238,23 +311,26 @@ impl Env {
             r.is_some() <==> self@.persistent.contains_key(key.sv()),
             r.is_some() ==> r.unwrap().sv() == self@.persistent[key.sv()],
             r.is_some() ==> r.unwrap() == V::unsv(self@.persistent[key.sv()]),
+            r == dec::<V>(pget(self@, *key)),
     { unimplemented!() }
     #[verifier::external_body]
     pub fn storage_persistent_has<K: ToSV>(&self, key: &K) -> (r: bool)
-        ensures r == self@.persistent.contains_key(key.sv()),
+        ensures r == self@.persistent.contains_key(key.sv()), r == pget(self@, *key).is_some(),
     { unimplemented!() }
     #[verifier::external_body]
     pub fn storage_persistent_set<K: ToSV, V: ToSV>(&mut self, key: &K, val: &V)
         ensures final(self)@ == (World { persistent: old(self)@.persistent.insert(key.sv(), val.sv()), ..old(self)@ }),
+            final(self)@ == pset(old(self)@, *key, val.sv()),
     { unimplemented!() }
     #[verifier::external_body]
     pub fn storage_persistent_remove<K: ToSV>(&mut self, key: &K)
         ensures final(self)@ == (World { persistent: old(self)@.persistent.remove(key.sv()), ..old(self)@ }),
+            final(self)@ == pdel(old(self)@, *key),
     { unimplemented!() }
     /// returns only if the entry exists (the host traps on a missing entry)
     #[verifier::external_body]
     pub fn storage_persistent_extend_ttl<K: ToSV>(&self, key: &K, threshold: u32, extend_to: u32)
-        ensures self@.persistent.contains_key(key.sv()),
+        ensures self@.persistent.contains_key(key.sv()), pget(self@, *key).is_some(),
     { unimplemented!() }
 
     // ---------------- temporary ----------------
@@ -264,18 +340,19 @@ impl Env {
             r.is_some() <==> self@.temp_has(key.sv()),
             r.is_some() ==> r.unwrap().sv() == self@.temporary[key.sv()],
             r.is_some() ==> r.unwrap() == V::unsv(self@.temporary[key.sv()]),
+            r == dec::<V>(tget(self@, *key)),
     { unimplemented!() }
     #[verifier::external_body]
     pub fn storage_temporary_has<K: ToSV>(&self, key: &K) -> (r: bool)
-        ensures r == self@.temp_has(key.sv()),
+        ensures r == self@.temp_has(key.sv()), r == tget(self@, *key).is_some(),
     { unimplemented!() }
     #[verifier::external_body]
     pub fn storage_temporary_set<K: ToSV, V: ToSV>(&mut self, key: &K, val: &V)
-        ensures final(self)@ == temp_set(old(self)@, key.sv(), val.sv()),
+        ensures final(self)@ == temp_set(old(self)@, key.sv(), val.sv()), final(self)@ == tset(old(self)@, *key, val.sv()),
     { unimplemented!() }
     #[verifier::external_body]
     pub fn storage_temporary_remove<K: ToSV>(&mut self, key: &K)
-        ensures final(self)@ == temp_remove(old(self)@, key.sv()),
+        ensures final(self)@ == temp_remove(old(self)@, key.sv()), final(self)@ == tdel(old(self)@, *key),
     { unimplemented!() }
     /// M2: traps if the entry is absent, if threshold > extend_to, or if the new live-until would
     /// exceed the network maximum
@@ -286,6 +363,7 @@ impl Env {
             threshold <= extend_to,
             old(self)@.ledger_seq as int + extend_to as int <= old(self)@.max_live_until(),
             final(self)@ == temp_extend(old(self)@, key.sv(), threshold, extend_to),
+            final(self)@ == text(old(self)@, *key, threshold, extend_to),
     { unimplemented!() }
 
     // ---------------- ledger ----------------
